@@ -341,5 +341,31 @@ def translate(repo):
     out.append("  | _, _, _ => none")
     for lean, e in _derived_cmp(ex).items():
         out.append("def %s : CmpDef := %s" % (lean, e))
+
+    # ---- MPITraits<bigunsignedint<k>> (dune/common/parallel/mpitraits.hh): what the MPI datatype transports ----
+    mp = _strip_comments(open(os.path.join(repo, "dune/common/parallel/mpitraits.hh")).read())
+    mm = re.search(r"struct\s+MPITraits\s*<\s*bigunsignedint\s*<\s*k\s*>\s*>\s*\{(.*?)\n  \};", mp, flags=re.S)
+    if not mm:
+        raise TranslateError("MPITraits<bigunsignedint<k>> not found")
+    body = mm.group(1)
+    m = re.search(r"MPI_Type_contiguous\s*\(\s*([^,]+),\s*MPITraits\s*<\s*([\w:]+)\s*>\s*::\s*getType\s*\(\s*\)\s*,\s*&\s*(\w+)\s*\)", body)
+    if not m:
+        raise TranslateError("MPITraits<bigunsignedint<k>>: MPI_Type_contiguous call outside the grammar")
+    elem = {"std::uint16_t": 16, "uint16_t": 16, "unsigned short": 16, "std::uint8_t": 8, "std::uint32_t": 32,
+            "std::uint64_t": 64, "unsigned char": 8, "char": 8, "unsigned int": 32, "unsigned": 32, "int": 32, "short": 16}.get(m.group(2))
+    if elem is None:
+        raise TranslateError("MPITraits<bigunsignedint<k>>: element type %r outside the grammar" % m.group(2))
+    vec = m.group(3)
+    out.append("/-- MPITraits<bigunsignedint<k>>::getType(): `mpiBlocks` block(s), at the offset of `digit`, of `mpiCount k` contiguous")
+    out.append("    elements of `mpiElemBits` bits -/")
+    out.append("def mpiCount (k : Nat) : Nat := " + _formula(m.group(1), "MPI_Type_contiguous count"))
+    out.append("def mpiElemBits : Nat := %d" % elem)
+    m = re.search(r"int\s+length\s*\[\s*1\s*\]\s*=\s*\{\s*(\d+)\s*\}\s*;.*MPI_Type_create_struct\s*\(\s*1\s*,\s*length\s*,\s*&\s*(\w+)\s*,\s*&\s*%s\s*,\s*&\s*datatype\s*\)" % vec, body, flags=re.S)
+    if not m:
+        raise TranslateError("MPITraits<bigunsignedint<k>>: MPI_Type_create_struct call outside the grammar")
+    displ = m.group(2)
+    if not re.search(r"MPI_Get_address\s*\(\s*&\s*\(?\s*(\w+)\.digit\s*\)?\s*,\s*&\s*%s\s*\)" % displ, body):
+        raise TranslateError("MPITraits<bigunsignedint<k>>: the block is not placed at the member `digit`")
+    out.append("def mpiBlocks : Nat := %s" % m.group(1))
     out.append("end DV.C10.Gen")
     return [("DuneVerif/Gen/C10.lean", "\n".join(out) + "\n")]
